@@ -134,6 +134,12 @@ func (w *World) Converge(ns, name string, pendingChanges int) ConvergeResult {
 				res.Resolution = "promoted-or-no-canary"
 			}
 		}
+		if l2, failed := w.liveAfterFailure(ns, name, live); failed && l2 != live {
+			// the canary failed by itself during the phase (restarts left over from the hostile part):
+			// "the previously active template after a canary failure"
+			live = l2
+			res.Resolution = "auto-failed-during-phase"
+		}
 		if w.podRSWrites == w0 && w.finalOK(ns, name, live) == "" {
 			quiet++
 			if quiet == 3 {
@@ -206,6 +212,32 @@ func (w *World) forgetFailedPodBackoff(ns, name string) {
 			return
 		}
 	}
+}
+
+// liveAfterFailure: when a replica set other than the active one is built from the template
+// taken as live so far and carries Canary-Failed, the live template is the active replica set's
+// (the failed one stays for its two-minute retention, so it is seen after the round it failed in).
+func (w *World) liveAfterFailure(ns, name, live string) (string, bool) {
+	e := kit.GetEDS(w.S, ns, name)
+	if e == nil || e.Status.ActiveReplicaSet == "" {
+		return live, false
+	}
+	var active *v1.ExtendedDaemonSetReplicaSet
+	failed := false
+	for _, rs := range kit.RSs(w.S) {
+		if rs.Namespace != ns || rs.Labels[v1.ExtendedDaemonSetNameLabelKey] != name {
+			continue
+		}
+		if rs.Name == e.Status.ActiveReplicaSet {
+			active = rs
+		} else if kit.MarkerOfTemplate(&rs.Spec.Template) == live && oracle.RSCond(rs, v1.ConditionTypeCanaryFailed) {
+			failed = true
+		}
+	}
+	if failed && active != nil {
+		return kit.MarkerOfTemplate(&active.Spec.Template), true
+	}
+	return live, false
 }
 
 func classify(why string) string {
